@@ -205,9 +205,11 @@ func (p *Parser) GenerateBaseCode() (code string, err error) {
 			}
 		}
 
-		// Insert markers.
-		util.InsertComment(p.file, entry.marker, minPos)
+		// Insert markers. The closing one goes in first: a marker comment claims as many
+		// bytes as its text is long, so with a very short interface body the opening marker's
+		// extent would reach past the closing brace and swallow the closing marker.
 		util.InsertComment(p.file, entry.marker, maxPos)
+		util.InsertComment(p.file, entry.marker, minPos)
 	}
 
 	var buf bytes.Buffer
